@@ -128,7 +128,9 @@ def dedupe_repr(vals):
 GENERIC_BAD = [None, True, False, 0, 1, -1, 5, 10 ** 400, 2.5, 2.7, -0.0, 5e-324, 1e308, NAN, INF, -INF,
                '', '5', 'abc', 'ä', 'a\x00b', 'QUJD', '!!!!', 'QUJD\n', 'QUJ', 'Q!U!J!D',
                [], [1], [1, 2, 3, 4, 5], [[1]], ['a', 'b'], [None], {}, {'a': 1}, {'zz': 1}, {'a': None},
-               [['a', 1]]]
+               [['a', 1]],
+               # large values of every JSON container kind (error messages abbreviate them; length checks see them)
+               'x' * 300, list(range(50)), {f'k{i:02d}': i for i in range(50)}, [[[[[[[[1]]]]]]]]]
 
 
 def bad(spec, entry='wire'):
